@@ -71,7 +71,9 @@ pub open spec fn async_victim_ok<R>(p: EvictionPolicy, m: Map<String, (R, u64, u
         EvictionPolicy::FIFO | EvictionPolicy::LRU => v == q[0],
         EvictionPolicy::LFU => a_is_min_hits(m, q, v),
         EvictionPolicy::Random => true,
-        EvictionPolicy::ARC | EvictionPolicy::TLRU => true,
+        // C08: the victim minimises the documented score among the stored keys of the queue
+        EvictionPolicy::ARC => exists|j: int| #[trigger] a_stored(m, q, j) && q[j] == v && a_arc_min_at(m, q, j),
+        EvictionPolicy::TLRU => exists|j: int| #[trigger] a_stored(m, q, j) && q[j] == v && a_tlru_min_at(m, q, j, ttl, fw),
     }
 }
 
@@ -272,6 +274,10 @@ UNIT = dict(
                decreases='order@.len()')}),
         fn('insert', rules=R4 + R5, requires=INSERT_REQ, ensures=INSERT_ENS),
         fn('insert_with_memory', impl=IMPL_MEM, rules=R4 + R5, requires=INSERTM_REQ, ensures=INSERTM_ENS, loops={0: MEMLOOP},
-           hints=[(('fn_start',), 'resident_fits', 'broadcast use ax_resident_fits_a;'), (('loop_start', 0), 'resident_fits_loop', 'broadcast use ax_resident_fits_a;')]),
+           hints=[(('fn_start',), 'resident_fits', 'broadcast use ax_resident_fits_a;'),
+                  (('loop_start', 0), 'resident_fits_loop', 'broadcast use ax_resident_fits_a; let ghost pre_cache = self.cache@; let ghost pre_order = order@;'),
+                  # C07/C08 under memory pressure: EVERY eviction of the loop removes a victim the configured policy allows in the state it was chosen in
+                  (('loop_end', 0), 'each_memory_eviction_is_a_policy_victim',
+                   'assert(exists|v: String| async_victim_ok(self.policy, pre_cache, pre_order, v, self.ttl, self.frequency_weight) && self.cache@ == #[trigger] pre_cache.remove(v) && order@ == rm1(pre_order, v));')]),
     ],
 )
